@@ -194,7 +194,12 @@ func (g *G) genNode(f *FlowSpec, fidx, nidx int, nd *nodeDraft, loc J) {
 	enteredFlow := false
 	for i := 0; i < na; i++ {
 		t.Begin("action")
+		if enteredFlow && t.Chance("second_enter_flow", 1, 2) {
+			// a second enter_flow in the same node, often one that cannot be entered
+			g.forceKind = "enter_flow"
+		}
 		a := g.genAction(f, nd, loc)
+		g.forceKind = ""
 		if a != nil {
 			nd.actions = append(nd.actions, a)
 			if a["type"] == "enter_flow" {
@@ -202,8 +207,8 @@ func (g *G) genNode(f *FlowSpec, fidx, nidx int, nd *nodeDraft, loc J) {
 			}
 		}
 		t.End()
-		if enteredFlow {
-			break // enter_flow is conventionally the last action of its node
+		if enteredFlow && !t.Chance("actions_after_enter_flow", 1, 6) {
+			break // enter_flow is conventionally the last action of its node (not always)
 		}
 	}
 	t.Begin("router")
